@@ -43,13 +43,14 @@ def gen_verif_main(ws):
         if not m:
             raise Undecided("extract", "extraction anchor lost: " + str(e))
         stmt = m.group(0)
-    m = re.search(r"^pub const DEFAULT_MAX_DRIFT_RATE_PPB: u32 = .*;$", src, re.M)
-    if not m:
+    # every top-level constant of main.rs (the statement may refer to any of them)
+    consts = re.findall(r"^(?:pub(?:\([a-z]+\))? )?const [A-Z0-9_]+: [^=;]+ = [^;]*;$", src, re.M)
+    if not any("DEFAULT_MAX_DRIFT_RATE_PPB" in c for c in consts):
         raise Undecided("extract", "extraction anchor lost: const DEFAULT_MAX_DRIFT_RATE_PPB")
     tmpl = open(os.path.join(VERIF, "harness/clock-bound-d/verif_main.rs.tmpl")).read()
-    ws.write("clock-bound-d/src/verif_main.rs", tmpl.replace("@@CONST@@", m.group(0)).replace("@@STATEMENT@@", stmt.rstrip("\n")))
+    ws.write("clock-bound-d/src/verif_main.rs", tmpl.replace("@@CONST@@", "\n".join("#[allow(dead_code)]\n" + c for c in consts)).replace("@@STATEMENT@@", stmt.rstrip("\n")))
     ws.weave_log.append({"file": "clock-bound-d/src/verif_main.rs", "action": "generate",
-                         "text": "statement `let max_drift_ppb = ...;` and const DEFAULT_MAX_DRIFT_RATE_PPB cut verbatim from clock-bound-d/src/main.rs "
+                         "text": "statement `let max_drift_ppb = ...;` and every top-level `const` item cut verbatim from clock-bound-d/src/main.rs "
                                  "and wrapped as fn verif_ppb(args: Cli) -> Result<u32, String>",
                          "why": "the conversion is a statement inside main(); dropped: nothing (warn! is a no-op macro)"})
 
@@ -212,10 +213,12 @@ SHM_READ_GRP = {"kind": "kani", "crate": "clock-bound-shm", "units": ["shm_read"
 SHM_HDR_GRP = {"kind": "kani", "crate": "clock-bound-shm", "units": ["shm_header"], "modpath": "shm_header::verif_header"}
 C11_WRITE = sh("c11_write_contract", WR, also=["C11.write.gen_odd_before_copy", "C11.write.gen_odd_after_copy"], timeout=300)
 OPEN_H = sh("c16_open_any_file", RD, replayable=False, timeout=900)
+PROBE_H = sh("c16_usability_probe_agrees_with_client_open", WR, replayable=False, timeout=900)
 POSIX = "harness/clock-bound-shm/posix_model.c"
 A_POSIX = ("POSIX model (harness/clock-bound-shm/posix_model.c, linked with -Z c-ffi): one file of 0..96 bytes that may be missing, a directory, or fail to map; "
            "open/read/mmap/munmap/close/errno behave as the model says; only the first 24 bytes of content are symbolic, the rest reads as 0")
-A_FS_STUBS = ("ShmWriter::{is_usable_segment, wipe, mmap_segment_at} are file-system code replaced by contract stubs in the ShmWriter::new harness: probe Ok iff a reader can open the file, "
+A_FS_STUBS = ("ShmWriter::{is_usable_segment, wipe, mmap_segment_at} are replaced by contract stubs in the ShmWriter::new harness: probe Ok iff a client could open the file "
+              "(this contract of is_usable_segment is itself proved on the POSIX model: C16.probe.*), "
               "wipe re-creates the file as magic/size/version 0/generation 0/zero record (its byte-level output through std::fs + byteorder is UNVERIFIED), mmap MAP_SHARED aliases the readers' bytes")
 
 UPD = "harness/clock-bound-d/verif_updater.rs"
@@ -383,6 +386,7 @@ PROPS = {
         "trusted": ["harness/clock-bound-shm/verif_write.rs, verif_read.rs, posix_model.c"],
         "groups": [dict(SHM_READ_GRP, harnesses=[sh("c03_snapshot_quiescent", RD)]),
                    dict(SHM_READ_GRP, c_lib=POSIX, harnesses=[OPEN_H]),
+                   dict(SHM_WRITE_GRP, c_lib=POSIX, harnesses=[PROBE_H]),
                    dict(SHM_WRITE_GRP, harnesses=[C11_WRITE, sh("c04_new_takeover_or_wipe", WR, replayable=False),
                                                   sh("c16_write_then_fresh_snapshot_roundtrip", WR)])],
     },
@@ -395,6 +399,7 @@ PROPS = {
         "trusted": ["harness/clock-bound-shm/{verif_header.rs, verif_read.rs, verif_write.rs, posix_model.c}"],
         "groups": [dict(SHM_HDR_GRP, harnesses=[sh("c16_header_is_valid", HD)]),
                    dict(SHM_READ_GRP, c_lib=POSIX, harnesses=[OPEN_H]),
+                   dict(SHM_WRITE_GRP, c_lib=POSIX, harnesses=[PROBE_H]),
                    dict(SHM_WRITE_GRP, harnesses=[sh("c16_segment_size", WR), sh("c16_write_then_fresh_snapshot_roundtrip", WR),
                                                   sh("c04_new_takeover_or_wipe", WR, replayable=False)])],
     },
